@@ -23,7 +23,7 @@ NPool(s) ==
     [] s = "PB" -> {"Cleanup", "Err", "Foo", "New", "Select"}
     [] s = "p0" -> {"err", "err2", "cleanup", "cleanup2", "_", "", "foo", "foo2", "string", "nil", "error", "x1", "context", "b", "t3", "true"}
     [] s = "var" -> {"err", "err2", "cleanup", "cleanup2", "cleanup3", "foo", "fooBar", "context", "b", "x1", "t1", "t2", "tB", "bTB"}
-    [] s = "pkg:b" -> {"err", "foo", "context", "cleanup", "fooBar", "t1", "@same"}      \* @same: the injector package's own name
+    [] s = "pkg:b" -> {"err", "err2", "foo", "context", "cleanup", "cleanup2", "fooBar", "t1", "@same"}      \* @same: the injector package's own name
     [] s = "alias:b" -> {"err", "foo", "ctx", "cleanup", "t2", "x1"}
 
 \* identifiers declared at package scope of the injector package must be pairwise distinct
